@@ -6,6 +6,15 @@ lists — nil entries included — and all inventories; helper lemmas live in `S
 `Scalibr.Proofs.Index`. The model is the code after fix e8c67092 (findings are tagged on a copy, a nil
 entry fails the scan), so tagging holds for shared finding objects too.
 
+ENTRY CONDITION (audit-2, finding 13). `run` / `scanTail` describe `detector.Run` and the tail of `Scan` ENTERED WITH A
+LIVE CONTEXT AFTER THE EARLIER PHASES RETURNED NO ERROR: `run` starts its loop with `cancelled := false`, and a
+`ScanIn` is what `filesystem.Run` and `standalone.Run` delivered. `NoCancel` speaks of the detectors only. What
+happens otherwise is stated, not hidden: `C20_cancelled_at_entry` (context already cancelled when `detector.Run` is
+entered, e.g. by the last standalone extractor: no detector runs, no detector status, `ctx.Err()`), and, for the
+whole phase sequence — an earlier phase failing, cancellation before the scan or inside any earlier plugin —
+`Scalibr.Phases` (C10): `C10_plugins_detector_entry` says which entry state `Scan` hands to the detector loop and
+`C10_plugins_detector_models_agree` that the two models of that loop agree from every entry state.
+
 Naming: a theorem with a hypothesis the full statement needs is `…_partial`. Two hypotheses occur:
 * `NoCancel` — no detector cancels the scan's context while another detector is still to run (then the
   remaining detectors are skipped by design and the scan fails; `C20_once_prefix` and C10's
@@ -33,6 +42,18 @@ theorem C20_once_partial (ds : List Detector) (px : PkgMap) (hn : NoCancel ds) :
   split
   · simpa using h
   · split <;> simpa using h
+
+/-- `run` is `detector.Run` entered with a live context (the entry condition of every `C20_*_partial` theorem). -/
+theorem C20_entry_live (ds : List Detector) (px : PkgMap) : runFrom false ds px = run ds px := rfl
+
+/-- Entered with the context ALREADY CANCELLED (the last plugin of an earlier phase cancelled it): no detector is
+called, no status entry is produced, `Run` returns `ctx.Err()` — unless there is no detector at all. -/
+theorem C20_cancelled_at_entry (ds : List Detector) (px : PkgMap) (h : ds ≠ []) :
+    (runFrom true ds px).calls = [] ∧ (runFrom true ds px).status = [] ∧ (runFrom true ds px).findings = [] ∧
+    (runFrom true ds px).err = some .ctx := by
+  cases ds with
+  | nil => exact absurd rfl h
+  | cons d ds => simp [runFrom, runLoop]
 
 /-- Without any hypothesis: never twice, never out of order, never another index — the calls are a
 prefix of the configured detectors (a proper prefix only after a cancellation). -/
@@ -250,7 +271,7 @@ def exfI : ScanIn :=
    [⟨"d", fun _ => ([some ⟨2, some ⟨some (0, [7]), 1⟩, 2, [], []⟩], false), false⟩]⟩
 def exfJ (n : Nat) : ScanIn :=
   ⟨[], (List.range n).map fun k => ⟨k, none, k, [], []⟩, [], [], [], [], []⟩
-theorem C20_extractor_findings_validated :
+theorem C20_extractor_findings_validated_witness :
     (scanTail exfI).failed = true ∧ (scanTail exfI).findings = [] ∧
     (scanTail (exfJ 1)).failed = true ∧ (scanTail (exfJ 1)).findings = [] ∧
     (scanTail (exfJ 2)).failed = true ∧ (scanTail (exfJ 2)).findings = [] ∧ (scanTail (exfJ 2)).panics = false := by
